@@ -87,6 +87,18 @@ def prepare(_):
     centre_a = (fc[0] + math.degrees(3e-9), fc[1] + math.degrees(1e-9))      # 2 cm from a face centre: the small-angle branches
     centre_b = (fc[0] + math.degrees(2e-9), fc[1] + math.degrees(1.5e-9))     # same triangle as centre_a
     c29 = a5.lonlat_to_cell(centre_a, 29)
+    # one resolution-3 cell per (face, triangle): used to bring the lazily filled caches to any fill level before a pair is explored
+    from a5.core.cell import _dodecahedron as _dd
+    from a5.core.coordinate_transforms import to_face
+    from a5.core.constants import distance_to_edge as _de, PI_OVER_5 as _p5
+    fill = []
+    for f in range(12):
+        for tri in range(10):
+            g = (tri + 0.5) * _p5
+            ll = to_lonlat(_dd.inverse(to_face((0.45 * _de, g)), f))
+            cc = a5.lonlat_to_cell(((ll[0] + 180) % 360 - 180, ll[1]), 3)
+            if cc not in fill:
+                fill.append(cc)
     # collision matrix of the geometric calls (shared cache slots), for the evidence
     kk = {'edge': edge_lonlat, 'near': near, 'c7': c7, 'cb': cb, 'c4': c4, 'c5': c5, 'sib': sib, 'strays': strays,
           'mid': (near[0] + 0.4, near[1] - 0.3), 'centre_a': centre_a, 'centre_b': centre_b, 'c29': c29}
@@ -94,6 +106,7 @@ def prepare(_):
     slots = {n: touched(menu[n]) for n in GEO_A + GEO_B}
     kk['shared_slots'] = {f'{a}|{b}': [len(slots[a] & slots[b]), len(reflected(slots[a]) & reflected(slots[b]))] for a in GEO_A for b in GEO_B}
     kk['collision_search'] = {'shared_by_boundary_and_lonlat': [list(x) for x in shared]}
+    kk['fill'] = fill
     return kk
 
 
@@ -172,6 +185,54 @@ def quick_pairs():
         out.append((a, 'lonlat_to_cell_r7_edge', False))
     out.append(('cell_to_lonlat_r29_centre', 'lonlat_to_cell_r29_centre_b', False))
     return out
+
+
+def fill_solo(task):
+    """pristine values of cell_to_lonlat / cell_to_boundary for every fill cell (one process; the values do not depend on the order - C17)"""
+    import a5
+    k = task
+    return {c: (sched.call_value(lambda: a5.cell_to_lonlat(c)), sched.call_value(lambda: a5.cell_to_boundary(c, {'segments': 2}))) for c in k['fill']}
+
+
+def fill_pair(task):
+    """cache fill level n: the first n fill cells are used first, then A = cell_to_lonlat(cell n) is explored against B = cell_to_boundary(cell n+1)"""
+    n, k, fvals, probe_val = task
+    import a5
+    prefix = os.path.dirname(os.path.realpath(a5.__file__)) + os.sep
+    acc = common.Acc()
+    cells = k['fill']
+    for c in cells[:n]:
+        a5.cell_to_lonlat(c)
+    ca, cb = cells[n % len(cells)], cells[(n + 1) % len(cells)]
+    import gc
+    gc.collect()
+    gc.freeze()
+    gc.disable()
+    ex = sched.Explorer(prefix, 'line')
+    ex.after = lambda: probe_values(k)
+    if CAP is not None:
+        ex.occ_total = ex.count_sites(lambda: a5.cell_to_lonlat(ca))
+        ex.occ_cap = (3, 1)
+    res = ex.explore(lambda: a5.cell_to_lonlat(ca), lambda: a5.cell_to_boundary(cb, {'segments': 2}))
+    for kk, site, va, vb in res:
+        acc.n['states'] += 1
+        acc.n['transitions'] += 2
+        case = {'fill': n, 'k': kk, 'site': list(site)}
+        skey = f'c16:fill{n}:{site[0]}:{site[1]}:{site[2]}'
+        if va == 'blocked':
+            acc.n['blocked'] += 1
+            continue
+        probe = None
+        if isinstance(vb, tuple) and len(vb) == 3 and vb[0] == 'with-probe':
+            vb, probe = vb[1], vb[2]
+        if va == 'crash' or va != fvals[ca][0] or vb != fvals[cb][1] or (probe is not None and probe != probe_val):
+            what = va[1] if isinstance(va, tuple) and va[0] == 'exc' else (vb[1] if isinstance(vb, tuple) and vb[0] == 'exc' else 'a value differs from the single-threaded one')
+            acc.violation(skey, f'with {n} other triangles already cached: cell_to_lonlat({ca:#x}) preempted at {site[0]}:{site[2]} ({site[1]}) by cell_to_boundary({cb:#x}): {what}', case)
+            continue
+        acc.n['validated'] += 1
+    acc.strata['cache_fill_levels'] += 1
+    acc.n['fill_level_points'] += len(res)
+    return acc
 
 
 def solo(task):
@@ -313,6 +374,14 @@ def run(tier, t0, only_pairs=None):
         if part.pair_info[3]:
             acc.notes.append('%s: %d points, %d sites, %d bad' % part.pair_info)
         acc.merge(part)
+    # ---- cache fill levels: the same short pair explored after n = 0, 8, 16, .. (thorough: every n) other triangles were cached
+    fvals = one(fill_solo, k)
+    nfill = len(k['fill'])
+    levels = sorted(set(range(0, nfill, 8)) | {nfill - 1} | {x + d for x in (10, 16, 20, 32, 50, 64, 100, 128, 200) for d in (-1, 0, 1)}) if tier == 'quick' else list(range(0, nfill))
+    for _, part in common.fresh_map(fill_pair, [(n, k, fvals, solo_vals['<probe>']) for n in levels if n < nfill]):
+        if isinstance(part, Exception):
+            raise part
+        acc.merge(part)
     acc.notes.append('phase explore %.1fs' % (_t.time() - _t0))
     # determinism: one recorded point explored twice more, in two fresh processes, must give the same observation
     probe = ('lonlat_to_cell_r7_edge', 'boundary_seg2_edge', False, 'line', k, solo_vals, [5, 60, 137])
@@ -327,7 +396,7 @@ def run(tier, t0, only_pairs=None):
     acc.sample({'shared_cache_slots [all, reflected] per geometric pair': k.get('shared_slots')})
     acc.sample({'some_sites': sorted(allsites)[:5]})
     rule = (f'{len(tasks)} explorations over {len(A)} calls A and {len(B)} calls B (cold and warm library): every line event of A inside the a5 package is a preemption point at which B runs to completion '
-            '(thorough: every menu call as A x 12 calls B, cold and warm, every occurrence, plus every bytecode instruction for the short calls); after every schedule a fixed set of probe calls is made single-threaded; a state is (pair, temperature, point); non-trivial counts distinct (file, function, line) sites per pair')
+            '(thorough: every menu call as A x 12 calls B, cold and warm, every occurrence, plus every bytecode instruction for the short calls); after every schedule a fixed set of probe calls is made single-threaded; a short pair is also explored at cache fill levels 0, 8, 16, .. and every power of two / round number +-1 (thorough: every level 0..239); a state is (pair, temperature, point); non-trivial counts distinct (file, function, line) sites per pair')
     return common.finish(PID, LEVEL, tier, acc, t0, rule, [
         'context bound 2 (one preemption of A by a complete B, both role assignments); two or more preemptions and free-threaded memory effects are not explored',
         'quick tier: of the dynamic occurrences of one line site (same file, function, line) inside A only the first 6 and the last 2 are preemption points (counters.points_skipped_by_occurrence_cap); the thorough tier explores every occurrence',
@@ -338,6 +407,13 @@ def run(tier, t0, only_pairs=None):
 
 
 def replay(case):
+    if 'fill' in case:
+        (_, k), = common.fresh_map(prepare, [None], 1)
+        (_, fvals), = common.fresh_map(fill_solo, [k], 1)
+        (_, pv), = common.fresh_map(solo, [('<probe>', k)], 1)
+        (_, part), = common.fresh_map(fill_pair, [(case['fill'], k, fvals, pv[1])], 1)
+        return [(kk, w) for kk, w, _ in part.violations]
+
     def one(func, arg):
         (_, res), = common.fresh_map(func, [arg], 1)
         if isinstance(res, Exception):
